@@ -496,6 +496,19 @@ example : OrthoRows ⟨⟨0,8,0⟩, ⟨-4,0,0⟩, ⟨0,0,16⟩⟩ ∧
 example : HalfHeight ⟨⟨4,0,0⟩, ⟨2,4,0⟩, ⟨1,-2,4⟩⟩ (1 * 1) := by
   simp only [HalfHeight, colSq, M3.inv, M3.det]; norm_num
 
+/-! ## which box is in effect -/
+
+/-- Documented precedence of the two box sources of a periodic cell list: the explicit `box` argument
+overrides the AtomArray's own box; without the argument the AtomArray's box is used; with neither the
+constructor raises; with `periodic=False` no box is used at all.  (`chooseBox` is what the driver runs
+for `new … E/O/p`; the correspondence stream builds AtomArrays that carry a different box of their own.) -/
+theorem C14_box_precedence {β : Type} (e o : β) (oe oo : Option β) :
+    chooseBox true (some e) oo = some (.ok e) ∧
+    chooseBox true none (some o) = some (.ok o) ∧
+    chooseBox true (none : Option β) none = some (.error .valueError) ∧
+    chooseBox false oe oo = none :=
+  ⟨rfl, rfl, rfl, rfl⟩
+
 /-! ## non-vacuity: the hypotheses are satisfiable and the model computes the expected sets -/
 
 -- query left of the grid (cell index truncates to 0), radius = cell size: atom 0 at distance 3 is found
